@@ -45,6 +45,8 @@ type Peer struct {
 	OnFault func(kind, fault string, reqIndex int)
 	// OnRequest is called for every complete request frame.
 	OnRequest func(reqIndex int, kind string, req []byte)
+	// OnReply is called for every reply body that was delivered completely.
+	OnReply func(kind string, req, reply []byte)
 
 	reqIndex int
 	perKind  map[string]int
@@ -160,7 +162,14 @@ func (p *Peer) Serve(c io.ReadWriteCloser) int {
 		idx := p.reqIndex
 		p.reqIndex++
 		p.perKind[kind]++
-		honest := func() []byte { return Process(p.Agent, req) }
+		honest := func() []byte {
+			if p.Intercept != nil {
+				if b := p.Intercept(kind, req, func() []byte { return Process(p.Agent, req) }); b != nil {
+					return b
+				}
+			}
+			return Process(p.Agent, req)
+		}
 		if fi >= 0 {
 			p.fired[fi] = true
 			if p.OnFault != nil {
@@ -196,7 +205,11 @@ func (p *Peer) Serve(c io.ReadWriteCloser) int {
 				c.Close()
 				return p.reqIndex
 			case FaultCloseAfter:
-				c.Write(frame(honest()))
+				b := honest()
+				c.Write(frame(b))
+				if p.OnReply != nil {
+					p.OnReply(kind, req, b)
+				}
 				c.Close()
 				return p.reqIndex
 			case FaultTruncBody:
@@ -205,15 +218,12 @@ func (p *Peer) Serve(c io.ReadWriteCloser) int {
 				continue
 			}
 		}
-		var body []byte
-		if p.Intercept != nil {
-			body = p.Intercept(kind, req, honest)
-		}
-		if body == nil {
-			body = honest()
-		}
+		body := honest()
 		if _, err := c.Write(frame(body)); err != nil {
 			return p.reqIndex
+		}
+		if p.OnReply != nil {
+			p.OnReply(kind, req, body)
 		}
 	}
 }
